@@ -140,6 +140,10 @@ func c11One(res *fw.Result, h *hist.H, r *gen.R, label string) *hist.Run {
 	if h.Mixed {
 		perm = "run-only"
 	}
+	if h.Span {
+		perm += "/span"
+		res.Add("histories_crossing_commit_info_start", 1)
+	}
 	feats := h.Features()
 	for _, f := range feats {
 		res.Put("pattern_classes", f)
@@ -157,6 +161,10 @@ func c11Exec(c fw.Case) *fw.Result {
 		for k := 0; k < n; k++ {
 			r := gen.New(gen.Sub(c.Seed, "c11h", k), "c11")
 			h := hist.Generate(r, c11Params(c, r))
+			if c.Int("span") == 1 {
+				// the history crosses osm.CommitInfoStart: the regime is a property of each version
+				hist.MakeSpan(h, r)
+			}
 			run := c11One(res, h, gen.New(gen.Sub(c.Seed, "c11tt", k), "c11tt"), fmt.Sprintf("history %d of the case", k))
 			if k == 0 {
 				res.Sample = map[string]any{"history": h, "observed": run.Observed()}
@@ -170,6 +178,34 @@ func c11Exec(c fw.Case) *fw.Result {
 		h := hist.BurstZ(c.Int("way") == 1, reg, int(c.Int("n")), int(c.Int("idx")), c.Int("zones") == 1)
 		run := c11One(res, h, gen.New(1, "c11burst"), "enumerated same-instant burst")
 		res.Sample = map[string]any{"history": h, "observed": run.Observed()}
+	case "window":
+		// enumerated forward-grouping shapes: own / foreign changeset versions after the parent
+		// inside the threshold, in every order, with and without a version before T in the window
+		way := c.Int("way") == 1
+		var pats []string
+		for n := 1; n <= 3; n++ {
+			for m := 0; m < 1<<n; m++ {
+				p := ""
+				for b := 0; b < n; b++ {
+					p += string("OF"[(m>>b)&1])
+				}
+				pats = append(pats, p)
+			}
+		}
+		first := true
+		for _, pat := range pats {
+			for _, before := range []int{0, 1, 2, 4} {
+				for _, nIdx := range []int{1, 2} {
+					h := hist.WindowShape(way, c.Int("eps"), pat, before, nIdx)
+					run := c11One(res, h, gen.New(1, "c11window"), fmt.Sprintf("window shape %s before=%d", pat, before))
+					res.Put("window_shapes", fmt.Sprintf("%s/%d", pat, before))
+					if first {
+						res.Sample = map[string]any{"history": h, "observed": run.Observed()}
+						first = false
+					}
+				}
+			}
+		}
 	case "subsec":
 		reg := hist.Commit
 		if c.Int("stamp") == 1 {
@@ -285,6 +321,23 @@ func c11Cases(tier string, seed uint64) []fw.Case {
 					i++
 				}
 			}
+		}
+	}
+	// histories that cross osm.CommitInfoStart (own seed stream, the streams above are unchanged)
+	i = 0
+	for way := int64(0); way < 2; way++ {
+		for _, mode := range c11Modes {
+			for s := 0; s < split; s++ {
+				cs = append(cs, fw.Case{Kind: "random", Seed: gen.Sub(seed, "c11span", i),
+					P: map[string]int64{"way": way, "regime": 0, "n": per, "span": 1}, S: map[string]string{"mode": mode}})
+				i++
+			}
+		}
+	}
+	// enumerated forward-grouping window shapes (seed independent)
+	for _, way := range []int64{1, 0} {
+		for _, eps := range []int64{30, 1800, 7200} {
+			cs = append(cs, fw.Case{Kind: "window", P: map[string]int64{"way": way, "eps": eps}})
 		}
 	}
 	return fw.Number(cs)
